@@ -11,7 +11,8 @@
    C04_id_injective: hence two variant maps with the same id under one URL key are the same map —
    under the hypothesis, stated in the theorem, that the 64-bit FNV-1a digest does not collide on the
    two encodings at hand (a 64-bit digest cannot be injective; the stored entry carries no request
-   fields to re-check against) and is not 0 for a non-empty map. *)
+   fields to re-check against) and is not 0 for a non-empty map.
+   C04_history_variant: the history-level statement — see the comment at the theorem. *)
 From HC Require Import Transport SpecMon.
 From HC.Proofs Require Import HeaderProofs VaryProofs.
 Open Scope Z_scope.
@@ -90,6 +91,70 @@ Proof.
     match goal with |- 0 <= fnv64a ?s < _ => pose proof (fnv_range s); unfold two64 in *; lia end.
 Qed.
 Print Assumptions C04_id_injective.
+
+(* ---------- history level ---------- *)
+From HC Require Import Run.
+From HC.Proofs Require Import StoreProofs3 ProvProofs.
+
+(* Along every sequential history from an empty store — any requests, any origin script, any timing — take
+   the store an exchange starts from, a reference of the index of the request's URL key that matches the
+   request, and the entry under that reference's id (this is the entry the hit path reads: C04 above and
+   round_trip's shape).  Then the entry was filed by StoreResponse for a request q0 that was sent to the
+   origin (a call with exactly q0 is logged in the history) for the same URL key, under the variant map m
+   that q0's header fields resolve to under the entry's own Vary field; m and the reference's map have the
+   same key; and whenever equal keys mean equal maps for these two (C04_id_injective: no FNV collision) the
+   request selects the same variant as q0: for every field the stored response's Vary names, the first
+   field lines agree after the documented normalisation, and no member is "*".
+   (Invariant InvS of ProvProofs.v, kept by every store operation of every RoundTrip and background tree.) *)
+Theorem C04_history_variant : forall cfg h t0 script k gq wk l r e,
+  let obs := run_history cfg h (init_world t0 script) in
+  let Lf := flat_map (fun o => x_events o ++ x_bg_events o) obs in
+  let u := make_url_key (q_url (snd gq)) in
+  nth_error h k = Some gq -> nth_error (worlds_before cfg h (init_world t0 script)) k = Some wk ->
+  get_refs (w_store wk) u = Some l -> In (Some r) l -> ref_matches r (q_hdr (snd gq)) = Some true ->
+  get_entry (w_store wk) (r_id r) = Some e ->
+  exists q0 m, (exists b a c rep, In (EvCall b q0 a c rep) Lf) /\ make_url_key (q_url q0) = u /\
+    normalize_vary (join [44] (hvalues (bs "Vary") (e_hdr e))) (q_hdr q0) = Some m /\
+    make_vary_key u m = make_vary_key u (r_resolved r) /\
+    (sort_resolved m = sort_resolved (r_resolved r) -> variant_match (e_hdr e) q0 (snd gq) = Some true).
+Proof.
+  intros cfg h t0 script k gq wk l r e obs Lf u Hk Hw Hl Hr Hm He.
+  assert (HI : InvS (Gl Lf) (Pl Lf) (w_store wk)).
+  { eapply (history_inv Lf cfg h (init_world t0 script)); [apply InvS_empty|apply incl_refl|exact Hw]. }
+  destruct (variant_provenance _ _ _ _ _ _ _ HI Hl Hr He) as (q0 & m & Hp & Hu & Hn & Hkey).
+  exists q0, m. split; [exact Hp|split; [exact Hu|split; [exact Hn|split; [exact Hkey|]]]].
+  intros Hsort. unfold vary_of, normalize_vary in Hn.
+  assert (Hsame : forall x, In x m <-> In x (r_resolved r)).
+  { intros x. unfold sort_resolved in Hsort. rewrite <- (in_isort (fun a b => ble (fst a) (fst b)) m x), Hsort. apply in_isort. }
+  destruct (ref_match_sound_same_bindings _ _ _ _ _ Hn Hsame Hm) as [Hstar Hall].
+  unfold variant_match, vary_has_star. fold (vary_members (e_hdr e)) in *.
+  assert (Hs : existsb (beq (bs "*")) (vary_members (e_hdr e)) = false).
+  { destruct (existsb _ _) eqn:E; [|reflexivity]. apply existsb_exists in E as (x & Hx & Hb).
+    apply beq_eq in Hb; subst. contradiction. }
+  rewrite Hs. apply all_match. exact Hall.
+Qed.
+Print Assumptions C04_history_variant.
+
+(* non-vacuity: after one stored response with Vary: Accept-Encoding, the store the second exchange starts
+   from has an index whose reference matches the repeated request and whose entry exists *)
+Example C04_history_example :
+  let q := {| q_method := bs "GET"; q_url := {| u_scheme := bs "http"; u_host := bs "a.test"; u_path := bs "/x"; u_query := []; u_force_query := false |};
+              q_hdr := [(bs "Accept-Encoding", [bs "gzip"])] |} in
+  let rep := RResp {| p_status := 200; p_hdr := [(bs "Cache-Control", [bs "max-age=60"]); (bs "Vary", [bs "Accept-Encoding"])];
+                      p_body := 0; p_body_ok := true |} in
+  let h := [(0, q); (1, q)] in
+  match nth_error (worlds_before {| cfg_swr_timeout := 0 |} h (init_world 0 [(0, rep, RErr); (0, rep, RErr)])) 1 with
+  | Some wk =>
+      match get_refs (w_store wk) (make_url_key (q_url q)) with
+      | Some [Some r] => ref_matches r (q_hdr q) = Some true /\
+                         match get_entry (w_store wk) (r_id r) with Some e => e_body e = 0 | None => False end
+      | _ => False
+      end
+  | None => False
+  end.
+Proof. vm_compute. split; reflexivity. Qed.
+
+(* the same store facts under every interleaving of concurrent calls: C16_store_invariant (Props/C16.v) *)
 
 (* the pinned tree's collision is gone: the two maps of the property file now encode differently *)
 Example C04_no_concatenation_collision :
